@@ -1,0 +1,16 @@
+//go:build verif
+
+// Contracts for package ast, checked by /verif/govc (comment-only).
+package ast
+
+// C08/C09: looking up a placeholder must not write to the (shared) message
+// tree. The work list starts as the body's own child slice; appending to it
+// must never land in that slice's backing array.
+//@ func (*MsgNode).Placeholder
+//@   props C08 C09 C11
+//@   pure
+//@   nosafety
+//@   ensures[found-has-the-name;C11] result != nil ==> result.Name == name
+//@   loop 0
+//@     invariant fresh(q)
+//@     noterm
